@@ -223,8 +223,12 @@ func c06VarCount(c *Ctx, w *prove.World, name string, u *ssa.Function, enc, dec 
 		trail += enc[i].Width
 	}
 	last := dec[len(dec)-1]
-	if last.Kind == "repeat" || last.OffForm == nil {
-		r.OK("count", name+".Unmarshal count", p.Rel(u.Pos()), "ends in a loop: the count is covered by `consumed` only")
+	if last.Kind == "repeat" {
+		c06RepeatCount(c, w, name, u, last, trail)
+		return
+	}
+	if last.OffForm == nil {
+		r.OK("count", name+".Unmarshal count", p.Rel(u.Pos()), "last field has no offset form: the count is covered by `consumed` only")
 		return
 	}
 	wf, ok := widthForm(&last)
@@ -389,6 +393,14 @@ func c06Inner(c *Ctx, w *prove.World, wt wireType, m, u *ssa.Function) {
 			if pth, ok := em.FieldPath(st.Addr); ok && pth == "SMB_STRING.Buffer" {
 				inner = em.Seq(st.Val)
 				found = true
+				// the inner block must be rebuilt on every call: the store dominates every return
+				for _, b2 := range m.Blocks {
+					if ret, isRet := b2.Instrs[len(b2.Instrs)-1].(*ssa.Return); isRet {
+						if !(st.Block() == ret.Block() || st.Block().Dominates(ret.Block())) {
+							r.Fail("sym", wt.name+" inner block is rebuilt on every Marshal", p.Rel(st.Pos()), "the store of the freshly built inner block into SMB_STRING.Buffer does not dominate every return: a stale block left by an earlier Marshal/Unmarshal can be re-emitted after the fields changed")
+						}
+					}
+				}
 			}
 		}
 	}
@@ -762,7 +774,7 @@ func onlyComparedOrBounds(v ssa.Value) bool {
 				continue
 			}
 			return false
-		case *ssa.Slice, *ssa.IndexAddr, *ssa.DebugRef, *ssa.Phi:
+		case *ssa.DebugRef:
 			continue
 		default:
 			return false
@@ -842,4 +854,77 @@ func onlyErrorText(mi *ssa.MakeInterface) bool {
 		}
 	}
 	return true
+}
+
+// c06RepeatCount: the type ends in a counted loop of fixed-width elements:
+// the count returned on success must be start + width·N, N being the loop
+// bound (the count field), computed without wrap.
+func c06RepeatCount(c *Ctx, w *prove.World, name string, u *ssa.Function, rep codec.Atom, trail int) {
+	p, r := c.P, c.R
+	key := name + ".Unmarshal count after the element loop"
+	if len(rep.Body) != 1 || rep.Body[0].Width == 0 || rep.Body[0].OffForm == nil || rep.Body[0].At == nil {
+		r.OK("count", key, p.Rel(u.Pos()), "loop body is not a single fixed-width element: covered by `consumed` only")
+		return
+	}
+	el := rep.Body[0]
+	// loop header and its bound
+	var hb *ssa.BasicBlock
+	for x := el.At.Block(); x != nil && hb == nil; x = x.Idom() {
+		for _, pr := range x.Preds {
+			if x.Dominates(pr) {
+				hb = x
+			}
+		}
+	}
+	if hb == nil {
+		r.Undecided("count", key, p.Rel(u.Pos()), "loop header not found")
+		return
+	}
+	iff, ok := hb.Instrs[len(hb.Instrs)-1].(*ssa.If)
+	if !ok {
+		r.Undecided("count", key, p.Rel(u.Pos()), "loop header has no bound test")
+		return
+	}
+	cmp, ok := iff.Cond.(*ssa.BinOp)
+	if !ok || (cmp.Op != token.LSS && cmp.Op != token.GTR) {
+		r.Undecided("count", key, p.Rel(u.Pos()), "loop bound test is not i < N")
+		return
+	}
+	bound := cmp.Y
+	if cmp.Op == token.GTR {
+		bound = cmp.X
+	}
+	// element offset is stride·i + start: take start and stride from the form
+	var start lin.Form = lin.K(0)
+	stride := int64(0)
+	fi := w.Info(u)
+	for _, t := range el.OffForm.Terms() {
+		v, _ := fi.TermValue(t)
+		if ph, isPhi := v.(*ssa.Phi); isPhi && ph.Block() == hb {
+			stride = el.OffForm.Coef[t].Int64()
+			continue
+		}
+		start = start.Add(lin.V(t).Scale(el.OffForm.Coef[t]))
+	}
+	start = start.Add(lin.KB(el.OffForm.C))
+	if stride != int64(el.Width) {
+		r.Fail("count", key, p.Rel(el.Pos), fmt.Sprintf("elements are %d bytes wide but the loop advances by %d", el.Width, stride))
+		return
+	}
+	n := 0
+	for i, ret := range successReturns(u) {
+		cx := fi.CtxBefore(ret)
+		want := start.Add(cx.Lin(bound).ScaleI(int64(el.Width))).AddK(int64(trail))
+		got := cx.Lin(ret.Results[0])
+		rkey := fmt.Sprintf("%s (success return #%d)", key, i+1)
+		n++
+		if cx.Prove(lin.GE(got, want)) && cx.Prove(lin.LE(got, want)) {
+			r.OK("count", rkey, p.Rel(ret.Pos()), fmt.Sprintf("returned count = %s + %d·(element count)", cx.Describe(lin.GE0(start)), el.Width))
+		} else {
+			r.Fail("count", rkey, p.Rel(ret.Pos()), fmt.Sprintf("returned count is not start + %d·N for the element count N the loop is bounded by (computed without wrap): %s", el.Width, cx.Describe(lin.GE(got, want))))
+		}
+	}
+	if n == 0 {
+		r.Undecided("count", key, p.Rel(u.Pos()), "no success return")
+	}
 }
